@@ -94,6 +94,46 @@ CATALOGUE = [
     "struct Foo(class: UInt:8):\n  0 [+1]  UInt  x\n",
     "struct Foo:\n  0 [+2]  bits:\n    0 [+8]  UInt  x\n",
     "struct Foo:\n  0 [+2]  struct  foo:\n    0 [+1]  bits:\n      0 [+4]  UInt  a\n    1 [+1]  UInt  b\n",
+    # keywords inside attribute values and type arguments; static references in places evaluated early
+    "struct Foo:\n  0 [+1]  UInt  x\n    [requires: $next > this]\n",
+    "struct Foo:\n  [requires: $next > 1]\n  0 [+1]  UInt  x\n",
+    "struct Par(p: UInt:8):\n  0 [+1]  UInt  x\nstruct Foo:\n  0 [+1]  UInt  a\n  1 [+1]  Par($next)  y\n",
+    "struct Foo:\n  [fixed_size_in_bits: $next]\n  0 [+1]  UInt  x\n",
+    "enum Ee:\n  [maximum_bits: $next]\n  AA = 1\n",
+    "struct Foo:\n  0 [+1]  UInt  x\n    [requires: $is_statically_sized && this < 4]\n",
+    "struct Foo:\n  0 [+1]  UInt  x\n    [requires: $static_size_in_bits == 8]\n",
+    "struct Foo:\n  0 [+2]  UInt  x\n    [byte_order: $next]\n",
+    "struct Foo:\n  0 [+1]  UInt  n\n  let foo_offset = n + 1\n  Foo.foo_offset [+4]  UInt  foo\n",
+    "struct Ss:\n  0 [+1]  UInt  x\n  let v = x + 1\nenum Ff:\n  BB = Ss.v\n",
+    "struct Ss:\n  0 [+1]  UInt  x\n  let v = x + 1\nstruct Tt:\n  [fixed_size_in_bits: Ss.v]\n  0 [+1]  UInt  y\n",
+    "struct Dyn:\n  0 [+1]  UInt  n\n  1 [+n]  UInt:8[]  d\nstruct Tt:\n  0 [+Dyn.$size_in_bytes]  UInt:8[]  y\n",
+    "struct Par(p: UInt:8):\n  0 [+1]  UInt  x\nstruct Foo:\n  0 [+1]  UInt  y\n  let v = Par.p\n",
+    "struct Foo(p: UInt:8):\n  0 [+1]  UInt  x\n  let v = p\n  let w = v.x\n",
+    "struct Foo(p: UInt:8[4]):\n  0 [+p]  UInt:8[]  x\n",
+    "[expected_back_ends: 1]\nstruct Foo:\n  0 [+1]  UInt  x\n",
+    "struct Foo:\n  0 [+1]  UInt  n\n  1 [+n]  UInt  x\n  2 [+x]  UInt  y\n",
+    "struct Foo:\n  0 [+1]  UInt  n\n  1 [+n]  UInt  x\n  $lower_bound(x) [+1]  UInt  q\n",
+    "external Ext:\n  [static_requirements: $upper_bound($static_size_in_bits) == 8]\n  [addressable_unit_size: 8]\nstruct Foo:\n  0 [+1]  Ext  x\n",
+    "struct Empty:\n  let k = 1\nstruct Foo:\n  0 [+0]  Empty[3]  x\n",
+    "struct Foo:\n  0 [+0]  UInt:8[0][4]  x\n",
+    "struct Foo:\n  -1 [+2]  UInt  x\n",
+    "struct Foo:\n  0 [+1]  UInt  n\n  1 [+n]  bits:\n    0 [+4]  UInt  a\n",
+    "struct Foo:\n  0 [+9]  bits:\n    0 [+4]  UInt  a\n",
+    "struct Foo:\n  0 [+1]  UInt:16[]  x\n",
+    "struct Foo:\n  let n = 2\n  0 [+n]  UInt  x\n",
+    "struct Foo:\n  0 [+1]  UInt  x\n  1 [+x * 0 + 1]  UInt  y\n",
+    "struct Foo:\n  0 [+4]  UInt  tag\n  if tag == -1:\n    4 [+1]  UInt  a\n  if tag == 4294967296:\n    4 [+1]  UInt  b\n",
+    "struct Foo:\n  0 [+1]  UInt  a\n  let b = a + 10\n  let e = b\n",
+    "struct Foo:\n  0 [+1]  UInt  y\n  if false:\n    let z = 7\n",
+    # open findings (see known_findings.json): overflow only in the synthesized size; self-recursive member reference
+    "struct Foo:\n  0 [+8]  UInt  offset\n  offset [+1]  UInt  x\n",
+    "struct Data:\n  0 [+1]  Data  d1\n  let x = d1.x\n",
+    "struct Foo:\n  0 [+1]  UInt  f0\n" + "".join("  $next [+1]  UInt  f%d\n" % i for i in range(1, 200)),
+    # astronomically wide integers that are referenced
+    "struct Foo:\n  0 [+4_000_000_000]  UInt  tag\n  let y = tag\n",
+    "struct Foo:\n  0 [+100_000_000]  Int  tag\n  if tag == 1:\n    0 [+1]  UInt  z\n",
+    "struct Foo(p: Int:1000000000):\n  0 [+1]  UInt  x\n  let y = p\n",
+    "struct Foo:\n  0 [+2000]  UInt  tag\n  let y = tag\n",
 ] + [
     # numeric literals far beyond any integer type, in every radix and several positions (Python's 4300-digit limit)
     tmpl % lit
@@ -233,9 +273,18 @@ def check_text(text, files=None, main="m.emb"):
             if ex is None and not errors:
                 header, herr, hex_ = common.back_end(ir)
     except common.CaseTimeout:
-        return {"key": "nontermination", "msg": "more than 10 s of CPU"}, "timeout"
-    except RecursionError:
-        return {"key": "crash:RecursionError", "msg": "RecursionError"}, "crash"
+        # the point at which the timer fires is arbitrary, so the finding is identified by a shape of the input:
+        # its first word pair and the most frequent line (digits removed), e.g. "struct Foo:|$next [+N] UInt fN"
+        import collections as _c
+        import re as _r
+        shape = _c.Counter(_r.sub(r"[0-9]+", "N", l.strip()) for l in text.split("\n") if l.strip()).most_common(1)
+        return {"key": "nontermination@" + (shape[0][0][:40] if shape else ""), "msg": "more than 10 s of CPU"}, "timeout"
+    except RecursionError as rex:
+        import traceback as _t
+        import collections as _c
+        frames = [f for f in _t.extract_tb(rex.__traceback__) if common.REPO in f.filename]
+        top = _c.Counter("%s:%s" % (os.path.basename(f.filename), f.name) for f in frames[-200:]).most_common(1)
+        return {"key": "crash:RecursionError@" + (top[0][0] if top else "?"), "msg": "RecursionError"}, "crash"
     if ex is not None:
         return {"key": common.exc_key(ex), "msg": repr(ex)[:300]}, "crash"
     if hex_ is not None:
@@ -264,7 +313,8 @@ def check_text(text, files=None, main="m.emb"):
             if sl == 0 or sc == 0:
                 return {"key": "location:0:0@" + m.message.split(chr(10))[0][:40], "msg": "%s: %s" % (f, m.message.split(chr(10))[0][:120])}, stage
             if loc.is_synthetic:
-                return {"key": "location:synthetic", "msg": m.message.split(chr(10))[0][:120]}, stage
+                import re as _r2
+                return {"key": "location:synthetic@" + _r2.sub(r"[0-9]+", "N", m.message.split(chr(10))[0])[:40], "msg": m.message.split(chr(10))[0][:120]}, stage
             if not (1 <= sl <= len(lines) + 1) or not (1 <= el <= len(lines) + 1):
                 return {"key": "location:line-out-of-file", "msg": "%s line %d of %d: %s" % (f, sl, len(lines), m.message.split(chr(10))[0][:100])}, stage
             ltxt = lines[sl - 1] if sl <= len(lines) else ""
@@ -352,7 +402,7 @@ def check_case(case):
         texts = list(CATALOGUE)
         for c in CATALOGUE:
             texts.append('[$default byte_order: "LittleEndian"]\n' + c)
-        imp = "# imported module\n" + "\n" * 9 + "struct Bar:\n  let k = 3\n  0 [+1]  UInt  x\n  1 [+1]  UInt                                             far_right_field\nenum En:\n  AA = 1\n\n\n\nstruct Word:\n  0 [+2]  UInt  v\n"
+        imp = "# imported module\n" + "\n" * 9 + "struct Bar:\n  let k = 3\n  0 [+1]  UInt  x\n  1 [+1]  UInt                                             far_right_field\nenum En:\n  AA = 1\n\n\n\nstruct Word:\n  0 [+2]  UInt  v\n" + "\n" * 20 + "struct Bad:\n  0 [+1]  UInt  x\n  1 [+1]  bits:\n    0 [+1]  Flag  flag\n  let bad = x + flag\nenum Flag:\n  OFF = 0\n  ON = 1\n"
         multi = [
             'import "imp.emb" as im\nstruct Foo:\n  0 [+1]  UInt  x\n  if im.Bar.x == 1:\n    1 [+1]  UInt  y\n',
             'import "imp.emb" as im\nstruct Foo:\n  im.Bar.far_right_field [+1]  UInt  x\n',
@@ -369,6 +419,13 @@ def check_case(case):
             'import "imp.emb" as im\nstruct Foo:\n  0 [+2]  im.Word[2]  w\n',
             'import "imp.emb" as im\nstruct Foo:\n  0 [+2]  im.Bar(1)  w\n',
             'import "imp.emb" as im\nstruct Foo:\n  0 [+1]  UInt  x\n  let v = im.En.AA + 1\n',
+            # an error inside the imported module, first reached through a reference from the importing one
+            'import "imp.emb" as im\nstruct Foo:\n  0 [+2]  im.Bad  inner\n  let q = inner.bad + 1\n',
+            'import "imp.emb" as im\nstruct Foo:\n  0 [+1]  UInt  x\n  let v = im\n',
+            'import "imp.emb" as im\nstruct Foo:\n  0 [+im]  UInt:8[]  x\n',
+            'import "imp.emb" as im\nstruct Foo:\n  0 [+1]  UInt  x\n    [requires: im]\n',
+            'import "imp.emb" as im\nstruct Foo:\n  0 [+1]  im.Flag  f\n  let is_on = f == im.Flag.ON\n',
+            'import "imp.emb" as im\nstruct Foo:\n  0 [+1]  im.Flag  f\n  if f:\n    1 [+1]  UInt  x\n',
         ]
         return run_many(texts + multi, "catalogue", files={"imp.emb": imp})
     if k == "nesting":
